@@ -42,6 +42,7 @@ class SimAbort(BaseException):
 EXC_FACTORIES: Dict[str, Callable[[], BaseException]] = {
     'timeout': lambda: SimTimeout('simulated timeout'),
     'conn': lambda: SimConnError('simulated connection error'),
+    'cancelled': lambda: asyncio.CancelledError('simulated cancellation raised by the transport'),
     'reset': lambda: SimConnReset('simulated connection reset'),
     'other': lambda: SimOther('simulated unlisted failure'),
     'abort': lambda: SimAbort('simulated abort'),
